@@ -15,15 +15,15 @@
 EXTENDS Integers, Sequences
 
 Abs(v) == IF v < 0 THEN -v ELSE v
-Max(a, b) == IF a >= b THEN a ELSE b
-Min(a, b) == IF a <= b THEN a ELSE b
+Max2(a, b) == IF a >= b THEN a ELSE b
+Min2(a, b) == IF a <= b THEN a ELSE b
 
 \* nearest multiple count of q (floor division, ties upward)
 RoundQ(v, q) == IF q = 1 THEN v ELSE (v + (q \div 2)) \div q
 
 MkRect(id, xa, ya, xb, yb) ==
-    [t |-> "rect", id |-> id, a |-> Min(xa, xb), b |-> Min(ya, yb),
-     c |-> Max(xa, xb), d |-> Max(ya, yb)]
+    [t |-> "rect", id |-> id, a |-> Min2(xa, xb), b |-> Min2(ya, yb),
+     c |-> Max2(xa, xb), d |-> Max2(ya, yb)]
 
 MkCirc(id, cx, cy, r) == [t |-> "circ", id |-> id, a |-> cx, b |-> cy, c |-> r, d |-> 0]
 
